@@ -28,6 +28,17 @@ def norm(object: Union[float, Tuple[float]], L: int = 0) -> float:
         return abs(object)
 
 
+def invert(number: Union[int, float]) -> float:
+    """
+    Multiplicative inverse of a number, exact for integers.
+    Points are multiplied by it instead of being divided, so that
+    ``scalar * point`` and ``point + point`` are enough for a point
+    """
+    if isinstance(number, (int, np.integer)):
+        return Fraction(1, int(number))
+    return 1 / number
+
+
 class BaseCurve(Intface_BaseCurve):
     def __init__(self, knotvector: KnotVector):
         self.__ctrlpoints = None
@@ -568,11 +579,11 @@ class BaseCurve(Intface_BaseCurve):
                 numerators = [wei * pt for wei, pt in zip(oldweights, oldctrlpoints)]
                 newctrlpoints = []
                 for i, line in enumerate(matrix):
-                    newctrlpoints.append(0 * numerators[0])
+                    invweight = invert(newweights[i])
+                    newpoint = 0 * numerators[0]
                     for j, point in enumerate(numerators):
-                        newpoint = line[j] * point
-                        newpoint /= newweights[i]
-                        newctrlpoints[i] += newpoint
+                        newpoint = newpoint + (line[j] * invweight) * point
+                    newctrlpoints.append(newpoint)
         self.ctrlpoints = None
         self.weights = None
         self.knotvector = newknotvector
@@ -974,7 +985,7 @@ class Curve(BaseCurve):
                 newweights = np.dot(matrix, self.weights)
                 newcurve.weights = newweights
                 newcurve.ctrlpoints = [
-                    num / w for num, w in zip(numerators, newweights)
+                    invert(w) * num for num, w in zip(numerators, newweights)
                 ]
             newcurves.append(newcurve)
         return tuple(newcurves)
@@ -1027,8 +1038,9 @@ class Curve(BaseCurve):
             error += abs(np.dot(oldweights, np.dot(materror, oldweights)))
             weights = np.dot(transmat, oldweights)
             numerators = np.dot(transmat, numerators)
+            ctrlpoints = [invert(wei) * num for num, wei in zip(numerators, weights)]
             self.weights = weights
-            self.ctrlpoints = [num / wei for num, wei in zip(numerators, weights)]
+            self.ctrlpoints = ctrlpoints
             return error
         if self.weights is None and other.weights is None:
             lstsq = heavy.LeastSquare.spline2spline
